@@ -54,6 +54,9 @@ func corpusNames() []string {
 func pickTarget(r *simrt.Rng, kind model.FieldKind) *listTarget {
 	var all []*listTarget
 	for _, n := range corpusNames() {
+		if corpus.Get(n).HasTag("c03only") {
+			continue // a shape that only the Diff check draws (its known finding would show here too)
+		}
 		for _, t := range listsOf(corpus.Get(n), kind) {
 			if t.pointerKeyed() {
 				// wrapper-union keys are pointers: map lookups go by pointer identity, not by
